@@ -186,6 +186,12 @@ func (f *FuncVC) intBinop(st *State, op token.Token, x, y *Val, ty types.Type) *
 			}
 			r := f.wrapTo(arith("*", x.T, pow2(k).String()), lo, hi, ty)
 			r.LowZero = x.LowZero + k
+			if mx := maskOf(x); mx != nil {
+				m := new(big.Int).Lsh(mx, k)
+				if _, thi, ok := intRangeOf(ty); ok && m.Cmp(thi) <= 0 {
+					r.Mask = m
+				}
+			}
 			return r
 		}
 		if f.pure == 0 && !isUnsigned(y.Ty) {
@@ -196,6 +202,18 @@ func (f *FuncVC) intBinop(st *State, op token.Token, x, y *Val, ty types.Type) *
 	case token.SHR:
 		if c, ok := litInt(y.T); ok && c.IsInt64() && c.Int64() >= 0 && c.Int64() < 128 {
 			k := uint(c.Int64())
+			if k%8 == 0 && k > 0 {
+				if bs := f.byteDecomp(x); bs != nil && int(k/8) < len(bs) {
+					// x = sum b[i]*256^i  =>  x>>8j = sum_{i>=j} b[i]*256^(i-j): linear
+					rest := bs[k/8:]
+					r := &Val{K: KInt, Ty: ty, T: byteSum(rest), Bytes: rest, Lo: big.NewInt(0)}
+					r.Hi = new(big.Int).Sub(pow2(uint(8*len(rest))), big.NewInt(1))
+					if xhi != nil && new(big.Int).Rsh(xhi, k).Cmp(r.Hi) < 0 {
+						r.Hi = new(big.Int).Rsh(xhi, k)
+					}
+					return r
+				}
+			}
 			r := &Val{K: KInt, Ty: ty, T: "(div " + x.T + " " + pow2(k).String() + ")"}
 			if xlo != nil && xhi != nil {
 				r.Lo = new(big.Int).Rsh(xlo, k)
@@ -227,6 +245,12 @@ func (f *FuncVC) intBinop(st *State, op token.Token, x, y *Val, ty types.Type) *
 		}
 		return r
 	case token.OR:
+		// disjoint sets of possibly-set bits: x|y = x+y
+		if mx, my := maskOf(x), maskOf(y); mx != nil && my != nil && new(big.Int).And(mx, my).Sign() == 0 {
+			r := f.intBinop(st, token.ADD, x, y, ty)
+			r.Mask = new(big.Int).Or(mx, my)
+			return r
+		}
 		// disjoint bit ranges: x has k low zero bits and 0 <= y < 2^k  =>  x|y = x+y
 		if x.LowZero > 0 && ylo != nil && ylo.Sign() >= 0 && yhi.Cmp(pow2(x.LowZero)) < 0 {
 			r := f.intBinop(st, token.ADD, x, y, ty)
@@ -266,6 +290,61 @@ func (f *FuncVC) intBinop(st *State, op token.Token, x, y *Val, ty types.Type) *
 	}
 	f.unsup("integer operator " + op.String())
 	return f.freshVal(ty, "op")
+}
+
+func byteSum(bs []string) string {
+	t := bs[0]
+	for i := 1; i < len(bs); i++ {
+		t = arith("+", t, arith("*", bs[i], pow2(uint(8*i)).String()))
+	}
+	return t
+}
+
+// byteDecomp names the bytes of a non-negative value below 2^64: fresh
+// constants b[i] in [0,255] with x == sum b[i]*256^i (such bytes exist for
+// every x in range, so this is a definition, not an assumption).  Shifts by
+// multiples of 8 and conversions to byte then stay linear.
+func (f *FuncVC) byteDecomp(x *Val) []string {
+	if x.Bytes != nil {
+		return x.Bytes
+	}
+	if _, isLit := litInt(x.T); isLit {
+		return nil
+	}
+	lo, hi := bounds(x)
+	if lo == nil || hi == nil || lo.Sign() < 0 || hi.BitLen() > 64 || hi.BitLen() <= 8 {
+		return nil
+	}
+	if f.decomps == nil {
+		f.decomps = map[string][]string{}
+	}
+	if bs, ok := f.decomps[x.T]; ok {
+		return bs
+	}
+	n := (hi.BitLen() + 7) / 8
+	var bs []string
+	for i := 0; i < n; i++ {
+		b := f.sc.fresh("byte")
+		f.sc.declare(b, "Int")
+		f.sc.assert(and(cmp("<=", "0", b), cmp("<=", b, "255")))
+		bs = append(bs, b)
+	}
+	f.sc.assert(implies(and(cmp("<=", "0", x.T), cmp("<", x.T, pow2(uint(8*n)).String())), eq(x.T, byteSum(bs))))
+	f.decomps[x.T] = bs
+	return bs
+}
+
+// maskOf returns the set of bits that may be set in the non-negative value v.
+func maskOf(v *Val) *big.Int {
+	if v.Mask != nil {
+		return v.Mask
+	}
+	lo, hi := bounds(v)
+	if lo == nil || hi == nil || lo.Sign() < 0 {
+		return nil
+	}
+	m := new(big.Int).Lsh(big.NewInt(1), uint(hi.BitLen()))
+	return m.Sub(m, big.NewInt(1))
 }
 
 func intRangeOf(ty types.Type) (*big.Int, *big.Int, bool) {
